@@ -193,7 +193,8 @@ func runC18(c *Ctx) {
 		elems, ok := sliceLitElems(st.Val)
 		good := ok && len(elems) == 1
 		if good {
-			good, _ = allOrigins(elems[0], oCall(0, "crypto/tls.LoadX509KeyPair", "crypto/tls.X509KeyPair"))
+			good, _ = allOrigins(elems[0], oCall(0, "crypto/tls.LoadX509KeyPair", "crypto/tls.X509KeyPair"), oNil()) // (zero value: a helper's result on its error path)
+			good = good && someOrigin(elems[0], oCall(0, "crypto/tls.LoadX509KeyPair", "crypto/tls.X509KeyPair"))
 		}
 		c.obI("R18.5", st, "Certificates-origin", good, "tls.Config.Certificates holds exactly the certificate returned by LoadX509KeyPair / X509KeyPair", "value "+describe(st.Val))
 	}
